@@ -13,6 +13,7 @@ from . import symex as sx
 
 float32 = _np.float32
 float64 = _np.float64
+float16 = _np.float16
 int64 = _np.int64
 int16 = _np.int16
 iinfo = _np.iinfo
@@ -40,7 +41,7 @@ def _conv(v, dtype):
             v = sx.to_num(v)
         if dtype in (int64, int16) and not v.is_int:
             raise sx.EngineUnsupported("real proxy stored into integer array")
-        if dtype in (float32, float64) and v.is_int:
+        if dtype in (float32, float64, float16) and v.is_int:
             import z3
             v = sx.SymNum(z3.ToReal(v.z))
         return v
@@ -231,7 +232,7 @@ ndarray = SArray
 
 
 def _dt(dtype):
-    if dtype in (float32, int64, int16, float64):
+    if dtype in (float32, int64, int16, float64, float16):
         return dtype
     if dtype is float or dtype is None:
         return float64
